@@ -173,6 +173,18 @@ def impl(case):
                 exc = "InvalidNameError without the name in its message"
         except Exception as e:  # noqa: BLE001
             got, res, exc = None, None, type(e).__name__
+        alias = None
+        if got is not None:
+            # results of separate calls are independent: edit the returned word lists in place, parse again
+            for lst in (p.first, p.von, p.last, p.jr):
+                lst.append("edited")
+                lst[:1] = ["edited"]
+            try:
+                again = nc.parts_dict(pn(s, strict=strict))
+            except Exception as e:  # noqa: BLE001
+                again = type(e).__name__
+            if again != got:
+                alias = "a second call on %r returned %r after the first result (%r) was edited in place" % (s, again, got)
         spec = nc.spec_parse(s)
         nwords = sum(len(x) for x in nc.top_words5(s))
         rec["nontrivial"] = nwords >= 2 or any(c in s for c in "{}\\,") or spec is None
@@ -220,6 +232,8 @@ def impl(case):
                 ok, detail = False, "ORACLE INVALID: transcription accepts corpus name %r (%s)" % (s, inp["reason"])
             elif res != [1, REASONS[inp["reason"]]]:
                 ok, detail = False, "corpus name %r: expected InvalidNameError %r" % (s, inp["reason"])
+        if ok and alias:
+            ok, detail = False, alias
         rec["oracle"] = {"ok": ok, "detail": detail}
         rec["summary"] = repr(got if got is not None else exc)[:200]
         return rec
@@ -232,8 +246,10 @@ def impl(case):
         if m == 2:
             return SplitNameParts()
         return MergeNameParts(style={0: "last", 1: "first", 2: "other"}[m[1]])
-    fields = [Field(k, unj(v), i + 1) for i, (k, v) in enumerate(inp["fields"])]
-    entry = Entry("book", "key1", fields, start_line=7, raw="@book{key1,...}")
+    def mk_entry():
+        return Entry("book", "key1", [Field(k, unj(v), i + 1) for i, (k, v) in enumerate(inp["fields"])], start_line=7,
+                     raw="@book{key1,...}")
+    entry = mk_entry()
     sx_in = [90, [m if isinstance(m, int) else [3, m[1]] for m in inp["mws"]], [], enc.enc_block(entry)]
     orig = [(k, unj(v)) for k, v in inp["fields"]]
     NF = ("author", "editor", "translator")
@@ -294,6 +310,21 @@ def impl(case):
                             ok, detail = False, "field %s: %r -> %r, BibTeX's rules give %r" % (k, v0, gotv, exp)
                     elif f.value != v0:
                         ok, detail = False, "non-name field %s changed" % k
+    summary = (repr([(f.key, f.value) for f in blk.fields])[:200] if cn == "Entry" else cn)
+    if ok and cn == "Entry":
+        # results of separate runs are independent: edit every NameParts of this result in place, run again on a fresh entry
+        for f in blk.fields:
+            if isinstance(f.value, list):
+                for p in f.value:
+                    if isinstance(p, NameParts):
+                        for lst in (p.first, p.von, p.last, p.jr):
+                            lst.append("edited")
+                            lst[:1] = ["edited"]
+        entry = mk_entry()
+        r2 = implutil.guarded(run)
+        out2 = implutil.r_ok(enc.enc_block(r2[1].blocks[0])) if r2[0] == "ok" else implutil.r_exc(r2[1])
+        if out2 != rec["sx_out"]:
+            ok, detail = False, "a second run on %r gives a different result after the NameParts of the first result were edited in place" % (orig,)
     rec["oracle"] = {"ok": ok, "detail": detail}
-    rec["summary"] = (repr([(f.key, f.value) for f in blk.fields])[:200] if cn == "Entry" else cn)
+    rec["summary"] = summary
     return rec
